@@ -53,3 +53,41 @@ _lin2_twin.__qualname__ = "lin2"
 
 USER = {f.__name__: f for f in (const, lin2, poly4, pi2pulse, x9y)}
 USER["lin2~"] = _lin2_twin
+
+
+# ---- PulseAtoms.arb_func: the user function and its keyword arguments are opaque objects for the model.
+# They cross the protocol as {"o": id}; ids are fixed per *content*, so that equal ids mean == in Python.
+
+def arb_lin(t, ka=1.0, kb=0.0):
+    return ka * t + kb
+
+
+def arb_quad(t, ka=1.0, kb=0.0):
+    return ka * t * t - kb
+
+
+ARB_FUNCS = {101: arb_lin, 102: arb_quad}
+KW_POOL = {201: {"ka": 2, "kb": 1}, 202: {"ka": 5, "kb": 1}, 203: {"ka": 0.5, "kb": -1.0}, 204: {"ka": -3, "kb": 0.25}}
+
+
+def opq_to_py(i):
+    """the Python object behind an opaque id (a fresh dict for keyword arguments, as a caller would write a literal)"""
+    if i in ARB_FUNCS:
+        return ARB_FUNCS[i]
+    if i in KW_POOL:
+        return dict(KW_POOL[i])
+    return object()
+
+
+def py_to_opq(v):
+    """the opaque id of a Python object, 0 when it is none of the registered ones"""
+    if callable(v):
+        for i, f in ARB_FUNCS.items():
+            if v is f:
+                return i
+        return 0
+    if isinstance(v, dict):
+        for i, d in KW_POOL.items():
+            if list(v.keys()) == list(d.keys()) and all(type(v[k]) is type(d[k]) and v[k] == d[k] for k in d):
+                return i
+    return 0
